@@ -147,7 +147,12 @@ func HarnessC08Sign() {
 		m.SetBoundary("caller-chosen-boundary")
 	}
 	content := append([]byte("signed body "), svBytes("c", n)...)
-	content = append(content, []byte("\r\n")...)
+	// how the content ends: one line end, a trailing empty line, no line end
+	tail := 0
+	if variant == 0 {
+		tail = svPick("content-tail", 3)
+	}
+	content = append(content, []byte([]string{"\r\n", "\r\n\r\n", ""}[tail])...)
 	if menc == EncodingQP {
 		hxAssumeText(content)
 	}
